@@ -563,3 +563,62 @@ Proof.
   change (isclose_arr nd eps s d s d' = Ret (all2 (close eps) d d')).
   rewrite isclose_arr_spec by tauto. now rewrite (all2_refl _ _ Z.eqb_refl).
 Qed.
+
+(* ---------- memory layouts: only the logical elements matter ---------- *)
+Lemma logical_length L s buf : pos s -> zlen (logical L s buf) = prod s.
+Proof.
+  intros Hp. unfold logical, zlen, zrange. rewrite map_length, zs_length. pose proof (prod_pos _ Hp). lia.
+Qed.
+Lemma arr_readL_some L s buf k : pos s -> zlen buf = prod s -> exists v, arr_readL L s buf k = Some v.
+Proof.
+  intros Hp Hl. unfold arr_readL. pose proof (layout_offset_bound L s _ (unrav_inb k s Hp)) as B.
+  replace (layout_offset L s (compute_indices k s) <? 0) with false by lia.
+  destruct (nth_error buf (Z.to_nat (layout_offset L s (compute_indices k s)))) eqn:E; [eauto|].
+  apply nth_error_None in E. unfold zlen in Hl. lia.
+Qed.
+Lemma nth_zs n k : (k < n)%nat -> nth_error (zs n) k = Some (Z.of_nat k).
+Proof. intros H. unfold zs. rewrite nth_error_map, nth_error_nth' with (d := 0%nat) by (rewrite seq_length; lia).
+  rewrite seq_nth by lia. reflexivity. Qed.
+Lemma arr_read_logical L s buf k : pos s -> zlen buf = prod s -> 0 <= k < prod s ->
+  arr_read s (logical L s buf) k = arr_readL L s buf k.
+Proof.
+  intros Hp Hl Hk. rewrite arr_read_in by (auto using logical_length).
+  unfold logical, zrange. rewrite nth_error_map, nth_zs by lia. simpl. rewrite Z2Nat.id by lia.
+  destruct (arr_readL_some L s buf k Hp Hl) as [v ->]. reflexivity.
+Qed.
+Lemma arr_loopL_logical cmp L s d L' d' : pos s -> zlen d = prod s -> zlen d' = prod s ->
+  forall n i acc, 0 <= i -> i + Z.of_nat n <= prod s ->
+  arr_loopL cmp L s d L' s d' i n acc = arr_loop cmp s (logical L s d) s (logical L' s d') i n acc.
+Proof.
+  intros Hp Hl Hl'. induction n as [|n IH]; intros i acc Hi Hn; simpl; [reflexivity|].
+  destruct acc; [|apply IH; lia].
+  rewrite !arr_read_logical by (auto; lia).
+  destruct (arr_readL L s d i), (arr_readL L' s d' i); auto. apply IH; lia.
+Qed.
+
+Lemma isequal_arrL_logical nd L s d L' s' d' : pos s -> zlen d = prod s -> pos s' -> zlen d' = prod s' ->
+  isequal_arrL nd L s d L' s' d' = isequal_arr nd s (logical L s d) s' (logical L' s' d').
+Proof.
+  intros Hp Hl Hp' Hl'. unfold isequal_arrL, isequal_arr.
+  destruct (negb (length s =? length s')%nat); [reflexivity|]. rewrite isequal_idx_spec.
+  destruct (all2 Z.eqb s s') eqn:Es; [|reflexivity]. apply all2_eqb_eq in Es. subst s'.
+  destruct (negb (product s =? product s) && negb nd); [reflexivity|].
+  rewrite product_eq_prod. pose proof (prod_pos _ Hp). apply arr_loopL_logical; auto; lia.
+Qed.
+Lemma isclose_arrL_logical nd eps L s d L' s' d' : pos s -> zlen d = prod s -> pos s' -> zlen d' = prod s' ->
+  isclose_arrL nd eps L s d L' s' d' = isclose_arr nd eps s (logical L s d) s' (logical L' s' d').
+Proof.
+  intros Hp Hl Hp' Hl'. unfold isclose_arrL, isclose_arr. rewrite isequal_idx_spec.
+  destruct (all2 Z.eqb s s') eqn:Es; [|reflexivity]. apply all2_eqb_eq in Es. subst s'.
+  rewrite product_eq_prod. pose proof (prod_pos _ Hp). apply arr_loopL_logical; auto; lia.
+Qed.
+
+(* whatever the two layouts: same shape and equal LOGICAL elements *)
+Lemma isequal_arrL_spec nd L s d L' s' d' : pos s -> zlen d = prod s -> pos s' -> zlen d' = prod s' ->
+  isequal_arrL nd L s d L' s' d' = Ret (all2 Z.eqb s s' && all2 Z.eqb (logical L s d) (logical L' s' d')) /\
+  forall eps, isclose_arrL nd eps L s d L' s' d' = Ret (all2 Z.eqb s s' && all2 (close eps) (logical L s d) (logical L' s' d')).
+Proof.
+  intros Hp Hl Hp' Hl'. split; [|intros eps].
+  - rewrite isequal_arrL_logical by assumption. apply isequal_arr_spec; auto using logical_length.
+  - rewrite isclose_arrL_logical by assumption. apply isclose_arr_spec; auto using logical_length.
+Qed.
